@@ -668,8 +668,80 @@ def hand_cases():
               b"magnet:?xt=urn:btih:" + b"A" * 32 + b"&tr=http%3A%2F%2Fx%2Fannounce&tr=udp://y", b"magnet:?", b"magnet:", b"", b"magnet:?xt", b"magnet:?xt=",
               b"magnet:?xt=urn:btih:", b"magnet:?xt=urn:btih:&", b"magnet:?tr=x", b"magnet:?xt=urn:btih:" + b"A" * 32 + b"&", b"magnet:?xt=urn:btih:" + b"A" * 32 + b"&&",
               b"magnet:?&xt=urn:btih:" + b"A" * 32, b"magnet:?xt=urn:btih:" + b"A" * 19 + b"%", b"magnet:?xt=urn:btih:" + b"A" * 19 + b"%4", b"magnet:?xt=urn:btih:" + b"A" * 19 + b"%4g",
-              b"magnet:?xt=urn:btih:" + b"\x00" * 20, b"magnet:?xt=urn:btih:" + b"\xff" * 20]:
+              b"magnet:?xt=urn:btih:" + b"\x00" * 20, b"magnet:?xt=urn:btih:" + b"\xff" * 20,
+              # dn / tr with every escape class, before and after the hash
+              b"magnet:?dn=%00&xt=urn:btih:" + b"B" * 32, b"magnet:?dn=..%2F..%2Fetc%2Fpasswd&xt=urn:btih:" + b"B" * 32,
+              b"magnet:?xt=urn:btih:" + b"B" * 32 + b"&dn=%2e%2e%2f&tr=%00&tr=%2F&tr=http%3A%2F%2Ft%2Fa%26b%3Dc",
+              b"magnet:?xt=urn:btih:" + b"B" * 32 + b"&tr=%", b"magnet:?xt=urn:btih:" + b"B" * 32 + b"&tr=%4",
+              b"magnet:?xt=urn:btih:" + b"B" * 32 + b"&dn=%zz", b"magnet:?xt=urn:btih:" + b"B" * 32 + b"&dn=%4%41",
+              b"magnet:?xt=urn:btih:" + b"B" * 32 + b"&dn", b"magnet:?xt=urn:btih:" + b"B" * 32 + b"&=x&==&x==y",
+              # several xt: base32 then hex then raw; the last valid one wins; a later broken one poisons
+              b"magnet:?xt=urn:btih:" + b"B" * 32 + b"&xt=urn:btih:" + b"cd" * 20 + b"&xt=urn:btih:" + b"%45" * 20,
+              b"magnet:?xt=urn:btih:" + b"%45" * 20 + b"&xt=urn:btih:" + b"B" * 32,
+              b"magnet:?xt=urn:btih:" + b"B" * 32 + b"&xt=urn:btih:" + b"cd" * 19 + b"c",
+              b"magnet:?xt=urn:btih:" + b"B" * 32 + b"&xt=urn:btih:" + b"B" * 20 + b"%2",
+              b"magnet:?xt=urn:btih:" + b"B" * 32 + b"&xt=urn:sha1:" + b"B" * 32,
+              # '%' right after the urn, escapes that decode to hex digits (%61%62.. x20 = 40 hex chars? no: 20 bytes)
+              b"magnet:?xt=urn:btih:" + b"%61%62" * 10, b"magnet:?xt=urn:btih:" + b"%61%62" * 20,
+              b"magnet:?xt=urn:btih:" + b"ab" * 19 + b"a%62", b"magnet:?xt=urn:btih:" + b"%00" * 19 + b"%01"]:
         out.append("U " + G7.hx(u))
+    return out
+
+
+UTF8_SAMPLES = [
+    b"\xc3\xa9", b"e\xcc\x81",                       # e-acute precomposed / combining (distinct byte strings)
+    b"\xe2\x82\xac", b"\xf0\x9f\x98\x80", b"\xef\xbb\xbfbom",   # 3- and 4-byte sequences, BOM
+    b"\xc0\x80", b"\xc0\xaf", b"\xe0\x80\xaf", b"\xc0\xae\xc0\xae",   # overlong NUL, overlong '/', overlong '..'
+    b"\xed\xa0\x80", b"\xf4\x90\x80\x80",          # surrogate, beyond U+10FFFF
+    b"\xe2\x82", b"\x80", b"\xbf\xbf", b"\xfe", b"\xff", b"\xf8\x88\x80\x80\x80",   # truncated / stray continuation / invalid lead
+    b"\xe2\x80\xae" + b"txt.exe", b"\xe2\x81\x84", b"\xef\xbc\x8f", b"\xe2\x88\x95",   # RLO, fraction slash, fullwidth solidus, division slash
+    b"\xef\xbc\x8e\xef\xbc\x8e", b"\xe2\x80\xa4\xe2\x80\xa4",   # fullwidth / one-dot-leader look-alikes of '..'
+    b"a\\..\\b", b"..\\x", b"C:", b"con", b"a\rb", b"a\nb", b"a\tb", b" ", b"  ", b"-rf", b"~", b"$HOME", b"`id`", b"%2e%2e", b"%2f",
+]
+
+
+def byte_sweep(tier):
+    """every byte value 0x01..0xff (0x00 is in BAD_COMPS) as a whole path component, as the
+    torrent name of a multi-file and of a single-file torrent; in the thorough tier also inside
+    a component and as a directory; plus UTF-8 valid / invalid / look-alike sequences. The
+    constructor reads no 'name.utf-8' / 'path.utf-8' keys (they are ignored like any other key):
+    a few cases carry them with hostile values to pin that down."""
+    out = []
+
+    def multi(name, paths, extra=None):
+        d = {"name": name, "piece length": 2048, "pieces": b"\x11" * 20,
+             "files": [M({"length": 1 if i == 0 else 0, "path": list(p)}) for i, p in enumerate(paths)]}
+        if extra:
+            d.update(extra)
+        return "T o " + G7.tree_line(M({"info": M(d)}))
+
+    def single(name, extra=None):
+        d = {"name": name, "piece length": 2048, "pieces": b"\x11" * 20, "length": 5}
+        if extra:
+            d.update(extra)
+        return "T o " + G7.tree_line(M({"info": M(d)}))
+
+    for v in range(1, 256):
+        c = bytes([v])
+        out.append(multi(b"t", [[c], [b"d", c]]))
+        out.append(multi(c, [[b"f"]]))
+        out.append(single(c))
+        if tier != "quick":
+            out.append(multi(b"t", [[b"x" + c + b"y"], [c + b"dir", b"f"], [b"z", c + c]]))
+            out.append(multi(b"n" + c, [[b"f" + c]]))
+            out.append(single(c + b"."))
+            out.append(single(b"." + c))
+    for u in UTF8_SAMPLES:
+        out.append(multi(b"t", [[u], [b"d", u, b"f"]]))
+        out.append(multi(u, [[b"f"]]))
+        out.append(single(u))
+    # both normalisation forms together: distinct byte strings, both must exist afterwards
+    out.append(multi(b"t", [[b"\xc3\xa9"], [b"e\xcc\x81"], [b"E"], [b"e"]]))
+    # *.utf-8 keys are not read
+    out.append(multi(b"t", [[b"a"]], {"name.utf-8": b"../../evil"}))
+    out.append(single(b"t", {"name.utf-8": b"/etc/passwd"}))
+    out.append("T o " + G7.tree_line(M({"info": M({"name": b"t", "name.utf-8": 5, "piece length": 2048, "pieces": b"\x11" * 20,
+                                                    "files": [M({"length": 1, "path": [b"a"], "path.utf-8": [b"..", b"..", b"evil"]})]})})))
     return out
 
 
@@ -739,6 +811,9 @@ def gen(seed, tier):
                 t = M({"info": t})
         cases.append("B " + G7.hx(bencoded_case(rng, t, stats)))
     stats["bencoded"] = n_benc
+    bs = byte_sweep(tier)
+    cases += bs
+    stats["byte_sweep"] = len(bs)
     ex = exhaustive_paths()
     if tier == "quick":
         ex = [c for i, c in enumerate(ex) if i % 4 == seed % 4 or i < 56]
